@@ -182,11 +182,11 @@ func drawC17(rt *rapid.T) C17Scenario {
 			for i := 0; i < nfault; i++ {
 				modes := []string{"500", "502", "stall", "refuse-after", "refuse-after", "lost-ack", "late-ack", "garbage"}
 				if sc.Platform == "github" {
-					modes = append(modes, "403-rate")
+					modes = append(modes, "403-rate", "403-rate")
 				} else {
-					modes = append(modes, "429")
+					modes = append(modes, "429", "429")
 				}
-				rd.Faults = append(rd.Faults, c17Fault{N: rapid.IntRange(0, 14).Draw(rt, "fn"), Mode: modes[rapid.IntRange(0, len(modes)-1).Draw(rt, "fmode")]})
+				rd.Faults = append(rd.Faults, c17Fault{N: rapid.IntRange(0, 18).Draw(rt, "fn"), Mode: modes[rapid.IntRange(0, len(modes)-1).Draw(rt, "fmode")]})
 			}
 		}
 		sc.Rounds = append(sc.Rounds, rd)
